@@ -289,9 +289,14 @@ def _post(chk, cases, bad, extra):
     dnc_parent_probe(chk, cases, bad, extra)
     import wide_explore
     wide_explore.explore(chk, extra, "C01")
+    import c04_validated                       # validated(...)/bounded(...) element and attribute types
+    c04_validated.explore(chk, extra, "C01", n_quick=1200, n_thorough=15000)
 
 
 def main(tier, replay=None):  # noqa: F811
+    if replay and '"validated-zoo"' in open(replay).read():
+        import c04_validated
+        return c04_validated.replay("C01", replay)
     if replay:
         return inst_check.replay("C01", replay, 2)
     return inst_check.run("C01", tier, 2, GENS, 400, 6000, ASSUMPTIONS, post=_post,
